@@ -160,6 +160,13 @@ Definition read_rand (r : rnd) (n : nat) : bytes * rnd :=
   | RealRand s pos => (take_stream s pos n, RealRand s (pos + n))
   end.
 
+(* one subscription of poll_oneoff: a relative/absolute clock, fd_read, fd_write, or an unknown event type *)
+Inductive sub :=
+| SClock (timeout flags userdata : Z)
+| SFdRead (fd userdata : Z)
+| SFdWrite (fd userdata : Z)
+| SOther (ty userdata : Z).
+
 Inductive call :=
 | ClockTimeGet (id precision : Z)
 | ClockResGet (id : Z)
@@ -173,6 +180,7 @@ Inductive call :=
 | FdPrestatGet (fd : Z)
 | FdFdstatGet (fd : Z)
 | PollClock (clockid timeout flags userdata : Z)
+| Poll (subs : list sub)
 | SchedYield
 | PathOpen (fd : Z).
 
@@ -209,6 +217,48 @@ Definition nul_terminated (l : list bytes) : bytes := flat_map (fun b => b ++ [0
 
 (* number of descriptors open at start: stdio + preopens + listeners *)
 Definition nfds (c : ctx) : Z := 3 + Z.of_nat (length (c_preopens c)) + Z.of_nat (c_listeners c).
+
+(* poll_oneoff (poll.go): the subscriptions are scanned in order. Clock and fd_write subscriptions and fd_read on a
+   descriptor that is not open are answered at once, in subscription order; fd_read on an open (blocking) descriptor is
+   deferred and answered, again in subscription order, after the immediate ones once stdin is ready (the stdin of
+   stdinFileEntry for a nil or plain reader is always ready).  An error inside the scan ends the whole call.
+   [nf] = number of open descriptors, [tmo] = minimum of the clock timeouts so far (int64). *)
+Definition poll_event (userdata errno ty : Z) : bytes :=
+  le_bytes 8 (wrap 64 userdata) ++ le_bytes 2 errno ++ le_bytes 4 ty ++ le_bytes 18 0.
+
+Fixpoint poll_scan (nf : Z) (subs : list sub) (now deferred : list bytes) (tmo : Z) : Z + (list bytes * list bytes * Z) :=
+  match subs with
+  | [] => inr (now, deferred, tmo)
+  | SClock t fl u :: r =>
+      let fl := wrap 16 fl in
+      if fl =? 0 then poll_scan nf r (now ++ [poll_event u 0 EventTypeClock]) deferred (Z.min (swrap 64 t) tmo)
+      else if fl =? 1 then inl ErrnoNotsup else inl ErrnoInval
+  | SFdRead fd u :: r =>
+      let fd := swrap 32 fd in
+      if fd <? 0 then inl ErrnoBadf
+      else if fd <? nf then poll_scan nf r now (deferred ++ [poll_event u 0 EventTypeFdRead]) tmo
+      else poll_scan nf r (now ++ [poll_event u ErrnoBadf EventTypeFdRead]) deferred tmo
+  | SFdWrite fd u :: r =>
+      let fd := swrap 32 fd in
+      if fd <? 0 then inl ErrnoBadf
+      else poll_scan nf r (now ++ [poll_event u (if fd <? nf then ErrnoNotsup else ErrnoBadf) EventTypeFdWrite]) deferred tmo
+  | SOther _ _ :: _ => inl ErrnoInval
+  end.
+
+(* errno, bytes at result.nevents followed by the nsubscriptions*32 bytes of the (zeroed) event area, nanoseconds slept *)
+Definition poll_result (nf : Z) (subs : list sub) : Z * bytes * Z :=
+  match subs with
+  | [] => (ErrnoInval, [], 0)
+  | _ =>
+    match poll_scan nf subs [] [] (2 ^ 63 - 1) with
+    | inl e => (e, [], 0)
+    | inr (now, deferred, tmo) =>
+        let evs := now ++ deferred in
+        let area := concat evs in
+        (0, le_bytes 4 (Z.of_nat (length evs)) ++ area ++ repeat 0 (32 * length subs - length area)%nat,
+         match deferred with [] => (if 0 <? tmo then tmo else 0) | _ => 0 end)
+    end
+  end.
 
 (* fd_fdstat_get of a stdio descriptor: Stat gives fs.ModeDevice|0640, which getWasiFiletype maps to
    FILETYPE_BLOCK_DEVICE (the seek/tell rights are only removed for character devices); no fd flags *)
@@ -266,6 +316,9 @@ Definition wasi_step (c : ctx) (k : call) : ctx * result :=
          (0, le_bytes 4 1 ++ le_bytes 8 (wrap 64 userdata) ++ le_bytes 2 0 ++ le_bytes 4 EventTypeClock ++ le_bytes 18 0))
       else if flags =? 1 then (c, (ErrnoNotsup, []))
       else (c, (ErrnoInval, []))
+  | Poll subs =>
+      let '(e, out, sl) := poll_result (nfds c) subs in
+      (with_effects c (c_emitted c) (if c_sleep_real c then c_slept c + sl else c_slept c), (e, out))
   | SchedYield => (c, (0, []))
   | PathOpen fd =>
       let fd := swrap 32 fd in
